@@ -6,6 +6,7 @@ import fcntl
 import hashlib
 import json
 import os
+import tempfile
 import random
 import re
 import shutil
@@ -67,6 +68,15 @@ def scratch():
             for name in os.listdir(BUILD):
                 if name.startswith("run-") and name[4:].isdigit() and not os.path.exists("/proc/%s" % name[4:]):
                     shutil.rmtree(os.path.join(BUILD, name), ignore_errors=True)
+        except OSError:
+            pass
+        # … and the temporary directories of harness processes that died before their deferred clean-up (a case that kills
+        # its process is run in a process of its own, but its directory stays): those older than an hour
+        try:
+            import glob
+            for t in glob.glob(os.path.join(tempfile.gettempdir(), "f1verif-*")):
+                if time.time() - os.path.getmtime(t) > 3600:
+                    shutil.rmtree(t, ignore_errors=True)
         except OSError:
             pass
     os.makedirs(d, exist_ok=True)
